@@ -214,6 +214,14 @@ def run(ctx):
         mv = (O.canon_group(H.drows_ops(ans.split(' ')[2])[0:N])[0], float(Fraction(ans.split(' ')[3]))) if ans.startswith('ok ') else ans
         if mv != (O.canon_group(post[0:N])[0], pr):
             ctx.mismatch('postselect', ans[:300], str(mv)[:500], str((O.canon_group(post[0:N])[0], pr))[:500], dict(rep=rep))
+        if N <= 4:
+            # density_matrix of the state after the call against the model's densityPoly (C14_postselect_is_projection is about it)
+            try:
+                dm = st.density_matrix
+                ctx.q('density_matrix', 'densitypoly 0 %s' % H.erows_ops(post), [(O.from_gp(g_, p_), complex(c_)) for g_, p_, c_ in zip(dm.gs, dm.ps, dm.cs)],
+                      lambda s_: [(O.from_gp(g_, p_), complex(float(c_[0]), float(c_[1]))) for g_, p_, c_ in E.dpoly(s_)])
+            except Exception as e:
+                ctx.fail('StabilizerState.density_matrix', 'implementation raised %r after post-selection' % e, rep)
         if abs(pr - wantp) > 1e-12:
             ctx.fail('StabilizerState.postselect', 'returned probability %s, Born probability of the requested outcome is %s' % (pr, wantp), rep); continue
         inv = O.tableau_invariant(post, N, 0)
